@@ -225,6 +225,40 @@ def build(spec, phases_first=False):
     return s
 
 
+def build_holes(spec):
+    """Same structure as build(spec), but reached through an edit history that leaves a freed node index in the middle and
+    re-uses another one (dummy loads are added and deleted along the way): node indices != construction positions."""
+    from sysloss.components import ILoad
+    comps = spec["comps"]
+    s = None
+    k = max(1, len(comps) // 2)
+    root = comps[0]["n"]
+    for j, c in enumerate(comps):
+        comp = make_comp(c)
+        if c["k"] == "Source":
+            if s is None:
+                s = System(spec["name"], comp, group=c.get("g", ""), rail=c.get("r", ""))
+                s.add_comp(root, comp=ILoad("__dummy1", ii=0.001))
+            else:
+                s.add_source(comp, group=c.get("g", ""), rail=c.get("r", ""))
+        else:
+            par = c["p"] if len(c["p"]) > 1 or c.get("plist") else c["p"][0]
+            s.add_comp(par, comp=comp, group=c.get("g", ""), rail=c.get("r", ""))
+        if j == k - 1 or (j == 0 and k == 1):
+            s.add_comp(root, comp=ILoad("__dummy2", ii=0.001))
+            s.del_comp("__dummy1")
+    if "__dummy1" in s._g.attrs["nodes"]:
+        s.del_comp("__dummy1")
+    if "__dummy2" in s._g.attrs["nodes"]:
+        s.del_comp("__dummy2")
+    if spec.get("phases"):
+        s.set_sys_phases(dict(spec["phases"]))
+    for c in spec["comps"]:
+        if c.get("pc") is not None:
+            s.set_comp_phases(c["n"], copy.deepcopy(c["pc"]))
+    return s
+
+
 def resolve(spec):
     """name -> record with resolved parent names (designators may be rails) and children lists."""
     rails = {c["r"]: c["n"] for c in spec["comps"] if c.get("r") and c["k"] not in LOADS}
